@@ -185,13 +185,14 @@ class HostKeyTest:
                 out.d("Hostkey type: [%s]; hostkey size: %u; CA type: [%s]; CA modulus size: %u" % (host_key_type, hostkey_modulus_size, ca_key_type, ca_modulus_size), write_now=True)
                 out.d("Raw hostkey bytes (%d): [%s]" % (len(raw_hostkey_bytes), raw_hostkey_bytes.hex()), write_now=True)
 
-                # Record all the host key info.
-                server_kex.set_host_key(host_key_type, raw_hostkey_bytes, hostkey_modulus_size, ca_key_type, ca_modulus_size)
+                # Record all the host key info (unless the server sent no reply at all: then there is no host key to report a size or a fingerprint of).
+                if kex_reply is not None:
+                    server_kex.set_host_key(host_key_type, raw_hostkey_bytes, hostkey_modulus_size, ca_key_type, ca_modulus_size)
 
-                # Set the hostkey size for all RSA key types since 'ssh-rsa', 'rsa-sha2-256', etc. are all using the same host key.  Note, however, that this may change in the future.
-                if cert is False and host_key_type in HostKeyTest.RSA_FAMILY:
-                    for rsa_type in HostKeyTest.RSA_FAMILY:
-                        server_kex.set_host_key(rsa_type, raw_hostkey_bytes, hostkey_modulus_size, ca_key_type, ca_modulus_size)
+                    # Set the hostkey size for all RSA key types since 'ssh-rsa', 'rsa-sha2-256', etc. are all using the same host key.  Note, however, that this may change in the future.
+                    if cert is False and host_key_type in HostKeyTest.RSA_FAMILY:
+                        for rsa_type in HostKeyTest.RSA_FAMILY:
+                            server_kex.set_host_key(rsa_type, raw_hostkey_bytes, hostkey_modulus_size, ca_key_type, ca_modulus_size)
 
                 # Close the socket, as the connection has
                 # been put in a state that later tests can't use.
